@@ -6,7 +6,9 @@ import (
 	"os"
 	"strconv"
 	"strings"
+	"sync"
 	"testing/fstest"
+	"time"
 
 	g "github.com/philhassey/goatlang"
 )
@@ -257,7 +259,7 @@ func (f *finisher) emit() *sk { e := leaf("emit"); e.l = f.next(); return e }
 func (f *finisher) block(b []*sk, top bool) []*sk {
 	var out []*sk
 	for _, s := range b {
-		if f.mode == 1 || (f.mode == 2 && f.r.chance(40)) {
+		if f.mode == 1 || f.mode == 3 || (f.mode == 2 && f.r.chance(40)) {
 			out = append(out, f.emit())
 		}
 		out = append(out, f.stmt(s))
@@ -487,18 +489,24 @@ func (s *sk) coq() string {
 	panic("kind " + s.kind)
 }
 
-// ---- reference evaluator (only used to discard non-terminating skeleton/seed pairs and to
-// predict nothing else: the Go toolchain is the reference) -------------------
+// ---- reference evaluator: a Go transcription of GoSpec/GoCtl.v exec (validated on every run: the Coq
+// side recomputes the traces with GoCtl itself, KRun / KRef / KSem cases; GoCtl against the Go toolchain) ----
+
+// orc is an answer vector: the i-th evaluated condition gets bit (i mod cm) of cb, the i-th range
+// expression a slice of length (2-bit digit i mod 4 of lv), the i-th switch tag the 4-bit digit i mod 4 of tv.
+type orc struct{ cb, cm, lv, tv int }
+
+func (o orc) String() string {
+	return fmt.Sprintf("conditions: bits of %d cycling every %d; range lengths: 2-bit digits of %d; tags: 4-bit digits of %d", o.cb, o.cm, o.lv, o.tv)
+}
+func (o orc) coq() string { return fmt.Sprintf("%d %d %d %d", o.cb, o.cm, o.lv, o.tv) }
 
 type skRun struct {
-	n, sd int
-	fuel  int
-	out   []string
+	o          orc
+	nc, nr, nt int
+	fuel       int
+	out        []string
 }
-
-func patCond(n, k, sd int) bool { return ((n*n+k)*sd)%7 < 4 }
-func patLen(n, k, sd int) int   { return (n + k + sd) % 3 }
-func patTag(n, k, sd int) int   { return (n + k + sd) % 4 }
 
 const (
 	oNormal = iota
@@ -515,9 +523,10 @@ func (r *skRun) ev(s string) bool {
 }
 func (r *skRun) emit(l int) bool { return r.ev(strconv.Itoa(l)) }
 func (r *skRun) c(k int) (bool, bool) {
-	r.n++
 	ok := r.ev(fmt.Sprintf("c %d", k))
-	return patCond(r.n, k, r.sd), ok
+	b := (r.o.cb>>(r.nc%r.o.cm))&1 == 1
+	r.nc++
+	return b, ok
 }
 
 func (r *skRun) block(b []*sk) int {
@@ -587,11 +596,11 @@ func (r *skRun) stmt(s *sk) int {
 			}
 		}
 	case "range":
-		r.n++
 		if !r.ev(fmt.Sprintf("r %d", s.l)) {
 			return oFuel
 		}
-		m := patLen(r.n, s.l, r.sd)
+		m := (r.o.lv >> (2 * (r.nr % 4))) & 3
+		r.nr++
 		for i := 0; i < m; i++ {
 			o := r.block(s.body)
 			if o == oBrk {
@@ -604,11 +613,11 @@ func (r *skRun) stmt(s *sk) int {
 	case "switch":
 		tv := 0
 		if s.tag >= 0 {
-			r.n++
 			if !r.ev(fmt.Sprintf("t %d", s.tag)) {
 				return oFuel
 			}
-			tv = patTag(r.n, s.tag, r.sd)
+			tv = (r.o.tv >> (4 * (r.nt % 4))) & 15
+			r.nt++
 		}
 		o := -1
 	cases:
@@ -641,16 +650,177 @@ func (r *skRun) stmt(s *sk) int {
 	return oNormal
 }
 
-// skSeed finds a pattern seed under which the function body terminates within the event budget.
-func skSeed(r *rng, body []*sk, budget int) (int, bool) {
-	for try := 0; try < 6; try++ {
-		sd := 1 + r.intn(6)
-		run := &skRun{sd: sd, fuel: budget}
-		if o := run.block(body); o != oFuel {
-			return sd, true
+// skPredict is what Go does with the body under the answer vector (ok = false: event budget exceeded).
+func skPredict(body []*sk, o orc, budget int) ([]string, bool) {
+	run := &skRun{o: o, fuel: budget}
+	if run.block(body) == oFuel {
+		return nil, false
+	}
+	return run.out, true
+}
+
+// ---- answer vectors ---------------------------------------------------------
+
+type skShape struct {
+	conds, ranges, tags int
+	loop               bool
+	tagVals            map[int]bool
+}
+
+func (sh *skShape) scan(b []*sk) {
+	for _, s := range b {
+		switch s.kind {
+		case "if":
+			sh.conds++
+		case "for":
+			sh.loop = true
+			if s.cond >= 0 {
+				sh.conds++
+			}
+		case "range":
+			sh.loop = true
+			sh.ranges++
+		case "switch":
+			if s.tag >= 0 {
+				sh.tags++
+				sh.tagVals[15] = true // no literal: the default
+				for _, c := range s.cases {
+					sh.tagVals[c.gs[0]] = true
+					sh.tagVals[c.gs[len(c.gs)-1]] = true
+				}
+			} else {
+				for _, c := range s.cases {
+					sh.conds += len(c.gs)
+				}
+			}
+		}
+		sh.scan(s.thn)
+		sh.scan(s.els)
+		sh.scan(s.body)
+		sh.scan(s.dflt)
+		for _, c := range s.cases {
+			sh.scan(c.body)
 		}
 	}
-	return 0, false
+}
+
+// skVectors lists answer vectors for a body: all boolean vectors for the conditions (one more bit than
+// there are conditions when a loop can re-evaluate them) up to maxBits bits, beyond that sampled longer
+// vectors too; every range length in {0,1,2}; every tag value hitting the first and last value of each
+// case and the default; the product, thinned to at most limit vectors.
+func skVectors(r *rng, body []*sk, maxBits, limit int) []orc {
+	sh := &skShape{tagVals: map[int]bool{}}
+	sh.scan(body)
+	type cv struct{ cb, cm int }
+	var cvs []cv
+	if sh.conds == 0 {
+		cvs = []cv{{0, 1}}
+	} else {
+		m := sh.conds
+		if sh.loop {
+			m++
+		}
+		if m > maxBits {
+			m = maxBits
+		}
+		for b := 0; b < 1<<m; b++ {
+			cvs = append(cvs, cv{b, m})
+		}
+		if sh.conds > maxBits || (sh.loop && sh.conds == maxBits) {
+			for i := 0; i < 16; i++ {
+				cm := maxBits + 1 + r.intn(6)
+				cvs = append(cvs, cv{r.intn(1 << cm), cm})
+			}
+		}
+	}
+	digits := func(n, base, bitsPer int, vals []int) []int {
+		// all assignments of vals to the first n digits; the 4 digits cycle through them
+		var res []int
+		idx := make([]int, n)
+		for {
+			v := 0
+			for d := 0; d < 4; d++ {
+				v |= vals[idx[d%n]] << (bitsPer * d)
+			}
+			res = append(res, v)
+			k := 0
+			for k < n {
+				idx[k]++
+				if idx[k] < len(vals) {
+					break
+				}
+				idx[k] = 0
+				k++
+			}
+			if k == n {
+				break
+			}
+		}
+		return res
+	}
+	lvs := []int{0}
+	if sh.ranges > 0 {
+		n := sh.ranges
+		if sh.loop && n < 2 {
+			n = 2
+		}
+		if n > 3 {
+			n = 3
+		}
+		lvs = digits(n, 3, 2, []int{0, 1, 2})
+	}
+	tvs := []int{0}
+	if sh.tags > 0 {
+		var vals []int
+		for _, k := range sortedKeysInt(sh.tagVals) {
+			vals = append(vals, k)
+		}
+		n := sh.tags
+		if n > 2 {
+			n = 2
+		}
+		tvs = digits(n, 0, 4, vals)
+	}
+	total := len(cvs) * len(lvs) * len(tvs)
+	var res []orc
+	at := func(i int) orc {
+		c := cvs[i%len(cvs)]
+		i /= len(cvs)
+		l := lvs[i%len(lvs)]
+		i /= len(lvs)
+		return orc{c.cb, c.cm, l, tvs[i]}
+	}
+	if total <= limit {
+		for i := 0; i < total; i++ {
+			res = append(res, at(i))
+		}
+		return res
+	}
+	// thinned: a stride walk with a random start covers all factors evenly
+	seen := map[int]bool{}
+	for len(res) < limit {
+		i := r.intn(total)
+		if !seen[i] {
+			seen[i] = true
+			res = append(res, at(i))
+		}
+	}
+	return res
+}
+
+func sortedKeysInt(m map[int]bool) []int {
+	var k []int
+	for x := range m {
+		k = append(k, x)
+	}
+	for i := range k {
+		for j := i + 1; j < len(k); j++ {
+			if k[j] < k[i] {
+				k[i], k[j] = k[j], k[i]
+			}
+		}
+	}
+	return k
 }
 
 // ---- programs ---------------------------------------------------------------
@@ -659,34 +829,46 @@ const c06Header = `package main
 
 import "fmt"
 
-var n int
-var sd int
+var nc, nr, nt int
+var cb, cm, lv, tv int
 
+func set(a int, b int, c int, d int) {
+	cb, cm, lv, tv = a, b, c, d
+	nc, nr, nt = 0, 0, 0
+}
 func emit(l int) { fmt.Println(l) }
 func c(k int) bool {
-	n++
 	fmt.Println("c", k)
-	return ((n*n+k)*sd)%7 < 4
+	b := (cb >> (nc % cm)) & 1
+	nc++
+	return b == 1
 }
 func rs(k int) []int {
-	n++
 	fmt.Println("r", k)
-	return make([]int, (n+k+sd)%3)
+	d := (lv >> (2 * (nr % 4))) & 3
+	nr++
+	return make([]int, d)
 }
 func tg(k int) int {
-	n++
 	fmt.Println("t", k)
-	return (n + k + sd) % 4
+	d := (tv >> (4 * (nt % 4))) & 15
+	nt++
+	return d
 }
 `
 
 type skFunc struct {
 	body []*sk
-	sd   int
 	desc string
 }
 
-func c06Program(fs []skFunc) string {
+type skCall struct {
+	fn int
+	o  orc
+}
+
+// c06Program: the functions t0..tn and a main running the given calls, each announced by "T".
+func c06Program(fs []skFunc, calls []skCall) string {
 	var sb strings.Builder
 	sb.WriteString(c06Header)
 	for i, f := range fs {
@@ -697,18 +879,22 @@ func c06Program(fs []skFunc) string {
 		sb.WriteString("}\n")
 	}
 	sb.WriteString("func main() {\n")
-	for i, f := range fs {
-		fmt.Fprintf(&sb, "\tsd = %d\n\tn = 0\n\tfmt.Println(\"T\", %d)\n\tt%d()\n", f.sd, i, i)
+	for _, c := range calls {
+		fmt.Fprintf(&sb, "\tset(%d, %d, %d, %d)\n\tfmt.Println(\"T\")\n\tt%d()\n", c.o.cb, c.o.cm, c.o.lv, c.o.tv, c.fn)
 	}
 	sb.WriteString("}\n")
 	return sb.String()
 }
 
-// splitTraces cuts the output at the "T i" markers: one slice of lines per function that started.
+func singleProgram(f skFunc, o orc) string {
+	return c06Program([]skFunc{f}, []skCall{{0, o}})
+}
+
+// splitTraces cuts the output at the "T" markers: one slice of lines per call that started.
 func splitTraces(out string) [][]string {
 	var res [][]string
 	for _, l := range strings.Split(strings.TrimRight(out, "\n"), "\n") {
-		if strings.HasPrefix(l, "T ") {
+		if l == "T" {
 			res = append(res, []string{})
 			continue
 		}
@@ -717,6 +903,14 @@ func splitTraces(out string) [][]string {
 		}
 	}
 	return res
+}
+
+func traceLines(out string) []string {
+	out = strings.TrimRight(out, "\n")
+	if out == "" {
+		return nil
+	}
+	return strings.Split(out, "\n")
 }
 
 func coqTrace(lines []string) (string, bool) {
@@ -744,10 +938,129 @@ func coqTrace(lines []string) (string, bool) {
 	return "[" + strings.Join(p, "; ") + "]", true
 }
 
+// exitTail: a construct that leaves conditionally, so the block it ends does NOT end for every path
+// (x = return / break / continue); form 0 is the unconditional exit.
+func exitTail(form int, x string) []*sk {
+	X := leaf(x)
+	switch form {
+	case 0:
+		return []*sk{X}
+	case 1: // if c { X }
+		a := leaf("if")
+		a.thn = []*sk{X}
+		return []*sk{a}
+	case 2: // if c { emit } else if c { X }
+		a, b := leaf("if"), leaf("if")
+		a.thn = []*sk{leaf("emit")}
+		b.thn = []*sk{X}
+		a.els = []*sk{b}
+		return []*sk{a}
+	case 3: // if c { emit } else { X }
+		a := leaf("if")
+		a.thn = []*sk{leaf("emit")}
+		a.els = []*sk{X}
+		return []*sk{a}
+	case 4: // switch { case c: X }
+		a := leaf("switch")
+		a.cases = []skCase{{gs: []int{0}, body: []*sk{X}}}
+		return []*sk{a}
+	case 5: // switch { case c: emit; default: X }
+		a := leaf("switch")
+		a.cases = []skCase{{gs: []int{0}, body: []*sk{leaf("emit")}}}
+		a.hasDef, a.dpos, a.dflt = true, 1, []*sk{X}
+		return []*sk{a}
+	case 6: // switch { default: X; case c: emit }  (default first in the source, last in the code)
+		a := leaf("switch")
+		a.cases = []skCase{{gs: []int{0}, body: []*sk{leaf("emit")}}}
+		a.hasDef, a.dpos, a.dflt = true, 0, []*sk{X}
+		return []*sk{a}
+	case 7: // for c { X }
+		a := leaf("for")
+		a.cond = 0
+		a.body = []*sk{X}
+		return []*sk{a}
+	case 8: // for range rs { X }
+		a := leaf("range")
+		a.body = []*sk{X}
+		return []*sk{a}
+	}
+	return nil
+}
+
+const exitTailForms = 9
+
+// skExitTails: blocks ending in a (conditional) exit directly followed by code they must skip: the
+// else branch of an if, an else-if chain, the next case or the default of a switch -- at top level and
+// inside for, range and switch-in-for.
+func skExitTails() [][]*sk {
+	var res [][]*sk
+	e := func() *sk { return leaf("emit") }
+	for form := 0; form < exitTailForms; form++ {
+		for _, x := range []string{"return", "break", "continue"} {
+			for outer := 0; outer < 4; outer++ {
+				then := append([]*sk{e()}, exitTail(form, x)...)
+				var o *sk
+				switch outer {
+				case 0: // if c { then } else { emit }
+					o = leaf("if")
+					o.thn, o.els = then, []*sk{e()}
+				case 1: // if c { then } else if c { emit } else { emit }
+					o = leaf("if")
+					b := leaf("if")
+					b.thn, b.els = []*sk{e()}, []*sk{e()}
+					o.thn, o.els = then, []*sk{b}
+				case 2: // switch { case c: then; default: emit }
+					o = leaf("switch")
+					o.cases = []skCase{{gs: []int{0}, body: then}}
+					o.hasDef, o.dpos, o.dflt = true, 1, []*sk{e()}
+				case 3: // switch { case c: then; case c: emit }
+					o = leaf("switch")
+					o.cases = []skCase{{gs: []int{0}, body: then}, {gs: []int{0}, body: []*sk{e()}}}
+				}
+				for ctx := 0; ctx < 4; ctx++ {
+					var b []*sk
+					switch ctx {
+					case 0:
+						b = []*sk{o, e()}
+					case 1: // for { o; emit; break }
+						l := leaf("for")
+						l.body = []*sk{o, e(), leaf("break")}
+						b = []*sk{l, e()}
+					case 2: // for range rs { o; emit }
+						l := leaf("range")
+						l.body = []*sk{o, e()}
+						b = []*sk{l, e()}
+					case 3: // for c { switch { case c: o; emit }; emit }
+						l, w := leaf("for"), leaf("switch")
+						l.cond = 0
+						w.cases = []skCase{{gs: []int{0}, body: []*sk{o, e()}}}
+						l.body = []*sk{w, e()}
+						b = []*sk{l, e()}
+					}
+					if skWf(b, false, false) {
+						res = append(res, b)
+					}
+				}
+			}
+		}
+	}
+	return res
+}
+
 // skSample draws a random block: depth-bounded, every construct, placeholders wherever legal.
 func skSample(r *rng, depth int, inLoop, inSwitch bool, maxLen int) []*sk {
 	n := r.intn(maxLen + 1)
 	var b []*sk
+	exits := func() []string {
+		x := []string{"return"}
+		if inLoop || inSwitch {
+			x = append(x, "break")
+		}
+		if inLoop {
+			x = append(x, "continue")
+		}
+		return x
+	}
 	for i := 0; i < n; i++ {
 		var kinds []string
 		kinds = append(kinds, "emit", "return")
@@ -767,6 +1080,9 @@ func skSample(r *rng, depth int, inLoop, inSwitch bool, maxLen int) []*sk {
 			x := leaf("if")
 			x.thn = skSample(r, depth-1, inLoop, inSwitch, maxLen)
 			if k == "ifelse" {
+				if r.chance(40) { // the then branch ends in a (conditional) exit, an else branch follows
+					x.thn = append(x.thn, exitTail(r.intn(exitTailForms), pick(r, exits()))...)
+				}
 				if r.chance(40) { // else-if chain
 					y := leaf("if")
 					y.thn = skSample(r, depth-1, inLoop, inSwitch, maxLen)
@@ -795,7 +1111,15 @@ func skSample(r *rng, depth int, inLoop, inSwitch bool, maxLen int) []*sk {
 			x := leaf("switch")
 			nc := r.intn(4)
 			for j := 0; j < nc; j++ {
-				x.cases = append(x.cases, skCase{gs: []int{0}, body: skSample(r, depth-1, inLoop, true, maxLen)})
+				body := skSample(r, depth-1, inLoop, true, maxLen)
+				if r.chance(25) { // a case block ending in a conditional exit, more clauses follow
+					ex := []string{"return", "break"}
+					if inLoop {
+						ex = append(ex, "continue")
+					}
+					body = append(body, exitTail(r.intn(exitTailForms), pick(r, ex))...)
+				}
+				x.cases = append(x.cases, skCase{gs: []int{0}, body: body})
 			}
 			if r.chance(70) {
 				x.hasDef, x.dpos, x.dflt = true, r.intn(nc+1), skSample(r, depth-1, inLoop, true, maxLen)
@@ -806,9 +1130,11 @@ func skSample(r *rng, depth int, inLoop, inSwitch bool, maxLen int) []*sk {
 	return b
 }
 
-// c06Funcs builds the list of test functions: every well-formed skeleton with at most `exh`
-// control nodes (bare and decorated with emits), then `sampled` random ones.
-func c06Funcs(r *rng, exh, sampled int, bare bool, st *stats, kinds map[string]int) []skFunc {
+// c06Funcs builds the list of test functions: every well-formed skeleton with at most `exh` control
+// nodes, the exit-tail family, then `sampled` random ones.  Decoration modes: 0 bare, 1 an emit before
+// every statement and at the end of every block, 3 an emit before every statement only (blocks keep
+// their last statement), 2 random.
+func c06Funcs(r *rng, exh, sampled int, modes []int, st *stats, kinds map[string]int) []skFunc {
 	var fs []skFunc
 	for n := 0; n <= exh; n++ {
 		cnt := 0
@@ -817,16 +1143,22 @@ func c06Funcs(r *rng, exh, sampled int, bare bool, st *stats, kinds map[string]i
 				continue
 			}
 			cnt++
-			modes := []int{1}
-			if bare {
-				modes = []int{0, 1}
-			}
 			for _, mode := range modes {
 				f := &finisher{r: r, mode: mode, kinds: kinds}
 				fs = append(fs, skFunc{body: f.block(b, true), desc: fmt.Sprintf("exhaustive nodes=%d", n)})
 			}
 		}
 		st.Histogram[fmt.Sprintf("exhaustive skeletons with %d control nodes", n)] = cnt
+	}
+	if exh >= 0 {
+		tails := skExitTails()
+		for _, b := range tails {
+			for _, mode := range []int{0, 3} {
+				f := &finisher{r: r, mode: mode, kinds: kinds}
+				fs = append(fs, skFunc{body: f.block(b, true), desc: "exit-tail family"})
+			}
+		}
+		st.Histogram["exit-tail family skeletons (conditional exit at the end of a then/case block)"] = len(tails)
 	}
 	for i := 0; i < sampled; i++ {
 		depth := 2 + i%4
@@ -839,8 +1171,8 @@ func c06Funcs(r *rng, exh, sampled int, bare bool, st *stats, kinds map[string]i
 
 const c06CaseHeader = "From Coq Require Import ZArith List Bool.\nFrom GV Require Import GoSpec.GoCtl Model.Ctl Model.CorrC06.\nImport ListNotations.\nOpen Scope Z_scope.\n"
 
-// realCode maps the instructions of a function body to the abstract instruction set.
-func realCode(ins []g.VerifIns) string {
+// realCode maps the instructions of a function body to the abstract instruction set ("" = no counterpart).
+func realCode(ins []g.VerifIns) []string {
 	var p []string
 	fn := map[string]string{"main.emit": "FEmit", "main.c": "FCond", "main.rs": "FLen", "main.tg": "FTag"}
 	for _, i := range ins {
@@ -881,12 +1213,181 @@ func realCode(ins []g.VerifIns) string {
 			s = "CContinue"
 		}
 		if s == "" {
-			p = append(p, fmt.Sprintf("RX %s", coqZ(int64(i.CodeN))))
+			s = fmt.Sprintf("RX %s", coqZ(int64(i.CodeN)))
+		}
+		p = append(p, s)
+	}
+	return p
+}
+
+func coqRealCode(code []string) string {
+	var p []string
+	for _, s := range code {
+		if strings.HasPrefix(s, "RX ") {
+			p = append(p, s)
 		} else {
 			p = append(p, "RI ("+s+")")
 		}
 	}
 	return "[" + strings.Join(p, "; ") + "]"
+}
+
+// ---- a Go rendering of Model/Ctl.v compile (only used to notice, inside the harness, that the real
+// compiler's code differs from the model, so that a deeper behavioural search is run on that skeleton;
+// the deciding comparison is the Coq one, KCode) -----------------------------
+
+func mCall(f string, k, nrets int) []string {
+	return []string{fmt.Sprintf("CPush %s", coqZ(int64(k))), "CGet " + f, fmt.Sprintf("CCall 1 %d", nrets)}
+}
+func mSimple(l int) []string {
+	if l < 0 {
+		return nil
+	}
+	return mCall("FEmit", l, 0)
+}
+func mJ(op string, d int) string { return fmt.Sprintf("%s %s", op, coqZ(int64(d))) }
+
+func mRewrite(b []string, brk, cnt func(n int) (int, bool)) []string {
+	out := make([]string, len(b))
+	for n, i := range b {
+		out[n] = i
+		if i == "CBreak" {
+			if d, ok := brk(n); ok {
+				out[n] = mJ("CJump", d)
+			}
+		}
+		if i == "CContinue" {
+			if d, ok := cnt(n); ok {
+				out[n] = mJ("CJump", d)
+			}
+		}
+	}
+	return out
+}
+
+func mSlotsBlock(b []*sk) int {
+	n := 0
+	for _, s := range b {
+		n += mSlots(s)
+	}
+	return n
+}
+func mSlots(s *sk) int {
+	switch s.kind {
+	case "if":
+		return mSlotsBlock(s.thn) + mSlotsBlock(s.els)
+	case "for":
+		return mSlotsBlock(s.body)
+	case "range":
+		return 2 + mSlotsBlock(s.body)
+	case "switch":
+		n := mSlotsBlock(s.dflt)
+		if s.tag >= 0 {
+			n++
+		}
+		for _, c := range s.cases {
+			n += mSlotsBlock(c.body)
+		}
+		return n
+	}
+	return 0
+}
+
+func mBlock(L int, b []*sk) []string {
+	var res []string
+	for _, s := range b {
+		res = append(res, mCompile(L, s)...)
+		L += mSlots(s)
+	}
+	return res
+}
+
+func mCompile(L int, s *sk) []string {
+	none := func(int) (int, bool) { return 0, false }
+	switch s.kind {
+	case "emit":
+		return mCall("FEmit", s.l, 0)
+	case "break":
+		return []string{"CBreak"}
+	case "continue":
+		return []string{"CContinue"}
+	case "return":
+		return []string{"CReturn 0"}
+	case "if":
+		thenI, elseI := mBlock(L, s.thn), mBlock(L+mSlotsBlock(s.thn), s.els)
+		res := append(mSimple(s.init), mCall("FCond", s.l, 1)...)
+		if len(elseI) == 0 {
+			res = append(res, mJ("CJumpFalse", len(thenI)))
+			return append(res, thenI...)
+		}
+		res = append(res, mJ("CJumpFalse", len(thenI)+1))
+		res = append(res, thenI...)
+		res = append(res, mJ("CJump", len(elseI)))
+		return append(res, elseI...)
+	case "for":
+		var cnd []string
+		if s.cond >= 0 {
+			cnd = mCall("FCond", s.cond, 1)
+		}
+		block, pst := mBlock(L, s.body), mSimple(s.post)
+		res := mSimple(s.init)
+		if len(cnd) > 0 {
+			res = append(res, mJ("CJump", len(block)+len(pst)))
+		}
+		res = append(res, mRewrite(block,
+			func(n int) (int, bool) { return len(block) - n + len(pst) + len(cnd), true },
+			func(n int) (int, bool) { return len(block) - n - 1, true })...)
+		res = append(res, pst...)
+		if len(cnd) > 0 {
+			res = append(res, cnd...)
+			return append(res, mJ("CJumpTrue", -(len(block) + len(pst) + len(cnd) + 1)))
+		}
+		return append(res, mJ("CJump", -(len(block) + len(pst) + 1)))
+	case "range":
+		block := mBlock(L+2, s.body)
+		res := append(mCall("FLen", s.l, 1), fmt.Sprintf("CRange %d %s", L, coqZ(int64(len(block)))))
+		res = append(res, mRewrite(block,
+			func(n int) (int, bool) { return len(block) - n, true },
+			func(n int) (int, bool) { return len(block) - n - 1, true })...)
+		return append(res, fmt.Sprintf("CIter %d %d %d %s", L, L+1, L+1, coqZ(int64(-(len(block) + 1)))))
+	case "switch":
+		var res []string
+		isv, L1 := s.tag >= 0, L
+		if isv {
+			res = append(mCall("FTag", s.tag, 1), fmt.Sprintf("CLocalSet %d", L))
+			L1 = L + 1
+		}
+		def0 := mBlock(L1, s.dflt)
+		def := mRewrite(def0, func(n int) (int, bool) { return len(def0) - n - 1, true }, none)
+		one := func(g int) []string {
+			if isv {
+				return []string{fmt.Sprintf("CPush %s", coqZ(int64(g))), fmt.Sprintf("CLocalGet %d", L), "CEq"}
+			}
+			return mCall("FCond", g, 1)
+		}
+		var out []string
+		Lc := L1 + mSlotsBlock(s.dflt)
+		for i := len(s.cases) - 1; i >= 0; i-- {
+			c := s.cases[i]
+			chunk := one(c.gs[0])
+			for _, g := range c.gs[1:] {
+				o := one(g)
+				chunk = append(chunk, mJ("COr", len(o)))
+				chunk = append(chunk, o...)
+			}
+			cs0 := mBlock(Lc, c.body)
+			Lc += mSlotsBlock(c.body)
+			lout := len(out)
+			csB := mRewrite(cs0, func(n int) (int, bool) { return len(cs0) - n + lout + len(def), true }, none)
+			chunk = append(chunk, mJ("CJumpFalse", len(csB)+1))
+			chunk = append(chunk, csB...)
+			chunk = append(chunk, mJ("CJump", lout+len(def)))
+			out = append(chunk, out...)
+		}
+		res = append(res, out...)
+		return append(res, def...)
+	}
+	panic("kind " + s.kind)
 }
 
 // funcBodies locates `func tN()` bodies: FUNC (A, slots, C = body length), nargs+nrets TYPE
@@ -931,122 +1432,246 @@ func (b *limitBuf) Write(p []byte) (int, error) {
 	return b.Buffer.Write(p)
 }
 
-// multiCallGuards: some tagless case clause lists several conditions (classification of mismatches only).
-func multiCallGuards(b []*sk) bool {
-	for _, s := range b {
-		if s.kind == "switch" && s.tag < 0 {
-			for _, c := range s.cases {
-				if len(c.gs) > 1 {
-					return true
-				}
-			}
-		}
-		if multiCallGuards(s.thn) || multiCallGuards(s.els) || multiCallGuards(s.body) || multiCallGuards(s.dflt) {
-			return true
-		}
-		for _, c := range s.cases {
-			if multiCallGuards(c.body) {
-				return true
-			}
-		}
-	}
-	return false
-}
-
 // skKey identifies a case by its skeleton (for the distinct count and the samples).
 func skKey(what string, f skFunc) string {
 	return what + " " + f.desc + ": " + strings.TrimSuffix(strings.TrimPrefix(coqBlock(f.body), "(blk "), ")")
 }
 
-func singleProgram(f skFunc) string { return c06Program([]skFunc{f}) }
+// ---- running the real VM function by function --------------------------------
 
-// cmdC06Corr: real compiler output (optimizer off) vs compile_ctl; real VM (optimizer off) vs machine.
+type vmSess struct {
+	vm  *g.VM
+	out *limitBuf
+}
+
+// newSess loads the program: optimize == nil is the default Load path (optimizer on), otherwise the
+// verif hook with the flag given (and the compiled code is returned).
+func newSess(src string, optimize *bool) (s *vmSess, ins []g.VerifIns, err error) {
+	s = &vmSess{out: &limitBuf{limit: 1 << 18}}
+	s.vm = g.New(g.WithStdout(s.out))
+	mfs := fstest.MapFS{"main/main.go": &fstest.MapFile{Data: []byte(src)}}
+	defer func() {
+		if rec := recover(); rec != nil {
+			err = fmt.Errorf("GO PANIC ESCAPED: %v", rec)
+		}
+	}()
+	if optimize == nil {
+		err = s.vm.Load(mfs, "main")
+	} else {
+		ins, _, _, err = g.VerifLoadTrace(s.vm, mfs, "main", *optimize)
+	}
+	return s, ins, err
+}
+
+// c06Watch turns a silent endless loop of the VM into a failing input: the command records it and exits.
+var c06Watch struct {
+	mu      sync.Mutex
+	active  bool
+	since   time.Time
+	onStuck func()
+}
+
+func c06StartWatch() {
+	go func() {
+		for {
+			time.Sleep(300 * time.Millisecond)
+			c06Watch.mu.Lock()
+			stuck := c06Watch.active && time.Since(c06Watch.since) > 8*time.Second
+			f := c06Watch.onStuck
+			c06Watch.mu.Unlock()
+			if stuck && f != nil {
+				f()
+				os.Exit(0)
+			}
+		}
+	}()
+}
+
+func (s *vmSess) run(fn string, o orc, onStuck func()) (lines []string, err error) {
+	s.out.Reset()
+	c06Watch.mu.Lock()
+	c06Watch.active, c06Watch.since, c06Watch.onStuck = true, time.Now(), onStuck
+	c06Watch.mu.Unlock()
+	defer func() {
+		c06Watch.mu.Lock()
+		c06Watch.active = false
+		c06Watch.mu.Unlock()
+		if rec := recover(); rec != nil {
+			lines, err = traceLines(s.out.String()), fmt.Errorf("GO PANIC ESCAPED: %v", rec)
+		}
+	}()
+	if _, err = s.vm.Call("main.set", 0, g.Int(o.cb), g.Int(o.cm), g.Int(o.lv), g.Int(o.tv)); err == nil {
+		_, err = s.vm.Call(fn, 0)
+	}
+	return traceLines(s.out.String()), err
+}
+
+type c06Mismatch struct {
+	Kind      string   `json:"kind"`
+	Src       string   `json:"src"`
+	Oracle    string   `json:"oracle"`
+	Expected  string   `json:"expected"`
+	Got       string   `json:"got"`
+	Line      int      `json:"first_diff_line"`
+	Err       string   `json:"err,omitempty"`
+	ExpTrace  []string `json:"expected_trace"`
+	GotTrace  []string `json:"observed_trace"`
+	Optimizer string   `json:"optimizer"`
+}
+
+func sameLines(a, b []string) bool {
+	if len(a) != len(b) {
+		return false
+	}
+	for i := range a {
+		if a[i] != b[i] {
+			return false
+		}
+	}
+	return true
+}
+
+func capLines(l []string) []string {
+	if len(l) > 60 {
+		return append(append([]string{}, l[:60]...), "...")
+	}
+	return l
+}
+
+func newMismatch(kind, opt string, f skFunc, o orc, exp, got []string, err error) c06Mismatch {
+	k := 0
+	for k < len(exp) && k < len(got) && exp[k] == got[k] {
+		k++
+	}
+	e, gg := "<end>", "<end>"
+	if k < len(exp) {
+		e = exp[k]
+	}
+	if k < len(got) {
+		gg = got[k]
+	}
+	es := ""
+	if err != nil {
+		es = err.Error()
+	}
+	return c06Mismatch{Kind: kind, Src: singleProgram(f, o), Oracle: o.String(), Expected: e, Got: gg, Line: k + 1, Err: es,
+		ExpTrace: capLines(exp), GotTrace: capLines(got), Optimizer: opt}
+}
+
+// behaviour compares the real VM with Go's semantics on one function under each answer vector.
+// It returns the vectors run (with the observed trace) and records every difference as a failing input.
+type vmObs struct {
+	o    orc
+	obs  []string
+	pred []string
+	bad  bool
+}
+
+func behaviour(st *stats, sess *vmSess, fname string, f skFunc, vecs []orc, kind, opt string, flush func()) []vmObs {
+	var res []vmObs
+	for _, o := range vecs {
+		pred, ok := skPredict(f.body, o, 300)
+		if !ok {
+			st.Histogram["answer vectors skipped (no termination within the event budget)"]++
+			continue
+		}
+		obs, err := sess.run(fname, o, func() {
+			st.mismatchG(kind+": endless loop", newMismatch(kind+": the VM does not terminate (Go does)", opt, f, o, pred, []string{"<no termination within 8 s>"}, nil))
+			flush()
+		})
+		bad := err != nil || !sameLines(obs, pred)
+		if bad {
+			st.mismatchG(kind, newMismatch(kind, opt, f, o, pred, obs, err))
+		}
+		res = append(res, vmObs{o, obs, pred, bad})
+	}
+	return res
+}
+
+// cmdC06Corr: real compiler output (optimizer off) vs compile_ctl; real VM (optimizer off) vs the
+// abstract machine AND vs Go's semantics, under systematically enumerated answer vectors.
 func cmdC06Corr(seed uint64, n int, dir string, thorough bool) {
 	r := newRng(seed)
 	st := newStats()
 	kinds := map[string]int{}
-	exh := 2
+	exh, limit, coqVecs := 2, 24, 2
 	if thorough {
-		exh = 3
+		exh, limit = 3, 32
 	}
-	fs := c06Funcs(r, exh, n, true, st, kinds)
+	fs := c06Funcs(r, exh, n, []int{0, 1, 3}, st, kinds)
 	var cases []string
-	for _, chunk := range c06Chunks(fs, 200) {
-		for i := range chunk {
-			sd, ok := skSeed(r, chunk[i].body, 300)
-			chunk[i].sd = sd
-			if !ok {
-				chunk[i].sd = -1
-			}
+	flush := func() {
+		for k, v := range kinds {
+			st.Histogram["construct:"+k] = v
 		}
-		// code correspondence: all functions
-		src := c06Program(chunk)
-		vm := g.New()
-		ins, _, err := g.VerifCompile(vm, src, false)
+		files := writeCases(dir, "cases_C06", c06CaseHeader, "xmismatches", cases, 400)
+		st.Extra["files"] = files
+		st.write(dir + "/C06_corr_stats.json")
+	}
+	c06StartWatch()
+	off := false
+	for _, chunk := range c06Chunks(fs, 200) {
+		src := c06Program(chunk, nil)
+		sess, ins, err := newSess(src, &off)
 		if err != nil {
 			st.mismatchG("compile-error", progMismatch{Kind: "compile-error", Src: src, Err: err.Error()})
 			continue
 		}
 		bodies := funcBodies(ins)
 		for i, f := range chunk {
-			body, ok := bodies[fmt.Sprintf("main.t%d", i)]
+			fname := fmt.Sprintf("main.t%d", i)
+			body, ok := bodies[fname]
 			if !ok {
-				st.mismatchG("body-not-found", progMismatch{Kind: "body-not-found", Src: singleProgram(f)})
+				st.mismatchG("body-not-found", progMismatch{Kind: "body-not-found", Src: singleProgram(f, orc{0, 1, 0, 0})})
 				continue
 			}
-			cases = append(cases, fmt.Sprintf("KCode %s %s", coqBlock(f.body), realCode(body)))
+			real := realCode(body)
+			cases = append(cases, fmt.Sprintf("KCode %s %s", coqBlock(f.body), coqRealCode(real)))
 			st.add("code: "+f.desc, skKey("code", f))
-		}
-		// run correspondence: the terminating ones, optimizer off
-		var runs []skFunc
-		for _, f := range chunk {
-			if f.sd > 0 {
-				runs = append(runs, f)
-			} else {
-				st.Histogram["run: skipped (no terminating seed)"]++
-			}
-		}
-		if len(runs) == 0 {
-			continue
-		}
-		out := &limitBuf{limit: 1 << 20}
-		vm2 := g.New(g.WithStdout(out))
-		mfs := fstest.MapFS{"main/main.go": &fstest.MapFile{Data: []byte(c06Program(runs))}}
-		func() {
-			defer func() {
-				if rec := recover(); rec != nil {
-					err = fmt.Errorf("GO PANIC ESCAPED: %v", rec)
+			// behaviour under answer vectors; a deeper search where the code differs from the model
+			lim, bits, kind := limit, 4, "control-flow (optimizer off)"
+			if !sameLines(real, mBlock(0, f.body)) {
+				st.Histogram["functions whose compiled code differs from the model"]++
+				kind = "control-flow (optimizer off; compiled code differs from Model/Ctl.v)"
+				// deep search: all condition vectors up to 8 bits x lengths x tags, until enough witnesses are in
+				if st.Groups[kind] < 40 && st.Histogram["deep behavioural searches run"] < 600 {
+					st.Histogram["deep behavioural searches run"]++
+					lim, bits = 4096, 8
 				}
-			}()
-			_, _, _, err = g.VerifLoadTrace(vm2, mfs, "main", false)
-			if err == nil {
-				_, err = vm2.Call("main.main", 0)
 			}
-		}()
-		traces := splitTraces(out.String())
-		for i, f := range runs {
-			if i >= len(traces) || (err != nil && i == len(traces)-1) {
-				st.mismatchG("run-error", progMismatch{Kind: "run-error (optimizer off)", Src: singleProgram(f), Err: fmt.Sprint(err)})
-				break
+			runs := behaviour(st, sess, fname, f, skVectors(r, f.body, bits, lim), kind, "off", flush)
+			st.Histogram["VM runs (optimizer off) compared with Go's semantics"] += len(runs)
+			// the Coq side re-checks a few of them (abstract machine = GoCtl = observed), and every bad one
+			sent := 0
+			for k, ro := range runs {
+				want := coqVecs
+				if strings.HasPrefix(f.desc, "exhaustive") {
+					want = 1
+				}
+				if !(ro.bad || sent < want && (k == len(runs)/2 || k == len(runs)-1)) {
+					continue
+				}
+				if ro.bad && sent > coqVecs+2 {
+					continue
+				}
+				sent++
+				if tr, ok := coqTrace(ro.obs); ok {
+					cases = append(cases, fmt.Sprintf("KRun %s %s %s", coqBlock(f.body), ro.o.coq(), tr))
+					st.add("run: "+f.desc, skKey("run "+ro.o.coq(), f))
+				}
+				if ro.bad {
+					if tr, ok := coqTrace(ro.pred); ok {
+						cases = append(cases, fmt.Sprintf("KRef %s %s %s", coqBlock(f.body), ro.o.coq(), tr))
+					}
+				}
 			}
-			tr, ok := coqTrace(traces[i])
-			if !ok {
-				st.mismatchG("run-output", progMismatch{Kind: "unparsable output", Src: singleProgram(f)})
-				continue
-			}
-			cases = append(cases, fmt.Sprintf("KRun %s %d %s", coqBlock(f.body), f.sd, tr))
-			st.add("run: "+f.desc, skKey(fmt.Sprintf("run sd=%d", f.sd), f))
 		}
 	}
-	for k, v := range kinds {
-		st.Histogram["construct:"+k] = v
-	}
-	files := writeCases(dir, "cases_C06", c06CaseHeader, "xmismatches", cases, 400)
-	st.Extra["files"] = files
-	st.write(dir + "/C06_corr_stats.json")
+	flush()
 }
 
-// cmdC06Spec: the Go toolchain's trace vs the GoSpec/GoCtl.v evaluator under the same oracle.
+// cmdC06Spec: the Go toolchain's trace vs the GoSpec/GoCtl.v evaluator (and the harness's Go rendering
+// of it) under the same answer vectors.
 func cmdC06Spec(seed uint64, n int, dir string, thorough bool) {
 	r := newRng(seed + 77)
 	st := newStats()
@@ -1055,32 +1680,39 @@ func cmdC06Spec(seed uint64, n int, dir string, thorough bool) {
 	if thorough {
 		exh = 2
 	}
-	var fs []skFunc
-	for _, f := range c06Funcs(r, exh, n, false, st, kinds) {
-		if sd, ok := skSeed(r, f.body, 300); ok {
-			f.sd = sd
-			fs = append(fs, f)
-		}
-	}
+	fs := c06Funcs(r, exh, n, []int{3}, st, kinds)
 	var cases []string
-	for _, chunk := range c06Chunks(fs, 400) {
-		out, panicked, err := goRefRun(asInt32(c06Program(chunk)))
+	for _, chunk := range c06Chunks(fs, 300) {
+		var calls []skCall
+		var preds [][]string
+		for i, f := range chunk {
+			vecs := skVectors(r, f.body, 4, 3)
+			for _, o := range vecs {
+				if pred, ok := skPredict(f.body, o, 300); ok {
+					calls = append(calls, skCall{i, o})
+					preds = append(preds, pred)
+				}
+			}
+		}
+		out, panicked, err := goRefRun(asInt32(c06Program(chunk, calls)))
 		if err != nil || panicked {
 			st.Histogram["invalid_go_program"]++
 			st.Extra["invalid_go"] = fmt.Sprint(err)
 			continue
 		}
 		traces := splitTraces(out)
-		for i, f := range chunk {
-			if i >= len(traces) {
+		for k, c := range calls {
+			if k >= len(traces) {
 				break
 			}
-			tr, ok := coqTrace(traces[i])
-			if !ok {
-				continue
+			f := chunk[c.fn]
+			if !sameLines(traces[k], preds[k]) {
+				st.mismatchG("gospec", newMismatch("harness evaluator differs from the Go toolchain (a defect of the checker, not of goatlang)", "-", f, c.o, traces[k], preds[k], nil))
 			}
-			cases = append(cases, fmt.Sprintf("KSem %s %d %s", coqBlock(f.body), f.sd, tr))
-			st.add("spec: "+f.desc, skKey(fmt.Sprintf("spec sd=%d", f.sd), f))
+			if tr, ok := coqTrace(traces[k]); ok {
+				cases = append(cases, fmt.Sprintf("KSem %s %s %s", coqBlock(f.body), c.o.coq(), tr))
+				st.add("spec: "+f.desc, skKey("spec "+c.o.coq(), f))
+			}
 		}
 	}
 	files := writeCases(dir, "cases_C06spec", c06CaseHeader, "xmismatches", cases, 400)
@@ -1088,76 +1720,64 @@ func cmdC06Spec(seed uint64, n int, dir string, thorough bool) {
 	st.write(dir + "/C06_spec_stats.json")
 }
 
-// cmdC06Script: goatlang (default Load path: optimizer on) vs the Go toolchain, n programs.
+// cmdC06Script: goatlang on the default Load path (optimizer on) vs Go: every function under all its
+// answer vectors against Go's semantics, and under a few of them against the Go toolchain itself
+// (n programs of sampled functions after the exhaustive part).
 func cmdC06Script(seed uint64, n int, dir string, thorough bool) {
 	r := newRng(seed + 1)
 	st := newStats()
 	kinds := map[string]int{}
-	exh, per := 2, 120
+	exh, per, limit := 2, 250, 24
 	if thorough {
-		exh = 3
+		exh, per, limit = 3, 400, 32
 	}
-	// the exhaustive part, then n programs of sampled functions
-	if thorough {
-		per = 400
-	}
-	fs := c06Funcs(r, exh, n*per, false, st, kinds)
-	var live []skFunc
-	for _, f := range fs {
-		if sd, ok := skSeed(r, f.body, 300); ok {
-			f.sd = sd
-			live = append(live, f)
-		} else {
-			st.Histogram["skipped (no terminating seed)"]++
+	fs := c06Funcs(r, exh, n*per, []int{1, 3}, st, kinds)
+	flush := func() { st.write(dir + "/C06_script_stats.json") }
+	c06StartWatch()
+	kind := "control-flow"
+	for _, chunk := range c06Chunks(fs, per) {
+		sess, _, err := newSess(c06Program(chunk, nil), nil)
+		if err != nil {
+			st.mismatchG("load-error", progMismatch{Kind: "load-error", Src: c06Program(chunk, nil), Err: err.Error()})
+			continue
 		}
-	}
-	for _, chunk := range c06Chunks(live, per) {
-		src := c06Program(chunk)
-		exp, panicked, err := goRefRun(asInt32(src))
+		var calls []skCall
+		var goat [][]string
+		for i, f := range chunk {
+			runs := behaviour(st, sess, fmt.Sprintf("main.t%d", i), f, skVectors(r, f.body, 4, limit), kind, "on (default Load path)", flush)
+			st.Histogram["VM runs (optimizer on) compared with Go's semantics"] += len(runs)
+			if len(runs) > 0 {
+				st.add("script: "+f.desc, skKey("script", f))
+			} else {
+				st.Histogram["skipped (no terminating answer vector)"]++
+			}
+			for k, ro := range runs {
+				if k == 0 || k == len(runs)-1 || k == len(runs)/2 {
+					calls = append(calls, skCall{i, ro.o})
+					goat = append(goat, ro.obs)
+				}
+			}
+		}
+		// the Go toolchain on up to three vectors per function
+		exp, panicked, err := goRefRun(asInt32(c06Program(chunk, calls)))
 		if err != nil || panicked {
 			st.Histogram["invalid_go_program"]++
 			st.Extra["invalid_go"] = fmt.Sprint(err, panicked)
 			continue
 		}
-		got, gerr := goatRun(src)
-		et, gt := splitTraces(exp), splitTraces(got)
-		for i, f := range chunk {
-			st.add("script: "+f.desc, skKey(fmt.Sprintf("script sd=%d", f.sd), f))
-			if i < len(gt) && strings.Join(et[i], "\n") == strings.Join(gt[i], "\n") && !(gerr != nil && i == len(gt)-1) {
-				continue
+		et := splitTraces(exp)
+		for k, c := range calls {
+			if k >= len(et) {
+				break
 			}
-			// re-run alone for a small replayable record
-			one := singleProgram(f)
-			e1, _, _ := goRefRun(asInt32(one))
-			g1, ge1 := goatRun(one)
-			es := ""
-			if ge1 != nil {
-				es = ge1.Error()
-			}
-			el, gl := strings.Split(e1, "\n"), strings.Split(g1, "\n")
-			k := 0
-			for k < len(el) && k < len(gl) && el[k] == gl[k] {
-				k++
-			}
-			e, gg := "<end>", "<end>"
-			if k < len(el) {
-				e = el[k]
-			}
-			if k < len(gl) {
-				gg = gl[k]
-			}
-			group := "control-flow"
-			if multiCallGuards(f.body) {
-				group = "control-flow (function has a tagless multi-value case list)"
-			}
-			st.mismatchG(group, progMismatch{Kind: group, Src: one, Expected: e, Got: gg, Line: k + 1, Err: es})
-			if gerr != nil {
-				break // the rest of this program did not run
+			st.Histogram["runs compared with the Go toolchain"]++
+			if !sameLines(et[k], goat[k]) {
+				st.mismatchG(kind+" (vs go build)", newMismatch(kind+" (vs go build)", "on (default Load path)", chunk[c.fn], c.o, et[k], goat[k], nil))
 			}
 		}
 	}
 	for k, v := range kinds {
 		st.Histogram["construct:"+k] = v
 	}
-	st.write(dir + "/C06_script_stats.json")
+	flush()
 }
